@@ -24,7 +24,10 @@ Contracts (from the property text), mode SYM (data movement; integer + - with re
   map-assign-map     M = B for two maps of the same type copies the elements of B into M's buffer (what the statement does for
                 owning tensors); B's buffer is not written and M keeps denoting its own buffer.
   reverse-map / reverse-own    X.reverse() through a map over m + d and on an owning tensor: element k becomes element n-1-k.
-  map-view-assign    M(seq...) = <tensor>, M(seq...) += <tensor> through a map (compile-time acceptance + effect).
+  map-view-assign    M(seq...) = <tensor>, M(seq...) += <tensor> through a map (compile-time acceptance + effect).  Generated for
+                rank 3 only: for rank-1 and rank-2 maps the statement is rejected by the compiler on the current tree
+                (tensor_views_nd.h constructs TensorViewExpr<Tensor<T,N[,M]>,DIMS>(tensor, std::array<seq>) but the 1D/2D
+                specialisations only have (tensor, seq[, seq]) constructors); set C20_INCLUDE_REJECTED=1 to generate those cases.
 The generic programs use neither `map = map` nor reverse() (both defective on the unchanged tree, kept in their own families).
 Programs on float/double buffers use the data-movement operations only (assignment, fill, zeros/ones, scalar-index and view
 writes); + and - appear in the int programs, where they are real 32/64-bit adders (element-wise float arithmetic is C02's subject).
@@ -35,6 +38,8 @@ d in {0,1,2,3} elements (4..24 bytes), not a symbolic byte offset.
 from units.common import *
 # 64-bit integers as int64_t: on LP64 `long long` (vf.I64) is a different type and never reaches SIMDVector<int64_t,ABI>
 L64 = Ty('int64', 'int64_t', 64, 'int')
+import os
+INCLUDE_REJECTED = bool(os.environ.get('C20_INCLUDE_REJECTED'))   # units the compiler rejects on the current tree (see map-view-assign)
 
 LEVEL_NOTE = ('per instantiation (program / shape pair / type / offset / ISA / std): buffer contents after operations through a map == '
               'owning-tensor result == the sequential semantics of the operations, frame, visibility both ways; reshape/flatten/squeeze '
@@ -440,6 +445,7 @@ def cases(tier, seed):
                 out.append(reverse_case(ty, (2, V + 1), 1, cfg, 'map')); out.append(reverse_case(ty, (2, V + 1), 0, cfg, 'own'))
             # ---- tensor assigned to a dynamic view of a map ----
             for shape in [(5,), (3, 4), (3, 2, 2)]:
+                if len(shape) < 3 and not INCLUDE_REJECTED: continue
                 for opn in (('=', '+=') if thorough or len(shape) == 3 else ('=',)):
                     out.append(map_view_assign_case(INT, shape, cfg, opn))
     seen = set(); res = []
